@@ -714,7 +714,21 @@ func VerifC04_RevisionClaims() {
 	})
 	pc.Snapshot([]*unstructured.Unstructured{parent}, map[string][]*unstructured.Unstructured{}, cached)
 
+	// the revisions come straight out of the shared lister cache: claiming -
+	// adoption and release included - writes to the API server, never to them
+	var preClaim []*v1alpha1.ControllerRevision
+	for _, c := range cached {
+		preClaim = append(preClaim, c.DeepCopy())
+	}
+
 	got, err := pc.claimRevisions(parent)
+
+	for i, c := range cached {
+		rt.Assert(c.ResourceVersion == preClaim[i].ResourceVersion, "C17/cached-revision-mutated-by-claim/resourceVersion")
+		rt.Assert(len(c.OwnerReferences) == len(preClaim[i].OwnerReferences), "C17/cached-revision-mutated-by-claim/ownerReferences")
+		rt.Assert(len(c.Labels) == len(preClaim[i].Labels), "C17/cached-revision-mutated-by-claim/labels")
+		rt.Assert(len(c.Children) == len(preClaim[i].Children), "C17/cached-revision-mutated-by-claim/children")
+	}
 
 	var exp []verifC04Exp
 	recheckOK := liveParent == verifC04ParentSame
